@@ -121,6 +121,11 @@ func validateLeaseSetInputs(dest destination.Destination, encryptionKey types.Re
 	if len(destBytes) < 387 {
 		return oops.Errorf("invalid destination: minimum size is 387 bytes")
 	}
+	// ReadLeaseSet refuses a LeaseSet whose Destination declares a prohibited key type;
+	// do not build one around a caller-assembled Destination either.
+	if err := dest.Validate(); err != nil {
+		return oops.Errorf("invalid destination: %w", err)
+	}
 
 	// Validate encryption key size
 	if len(encryptionKey.Bytes()) != LEASE_SET_PUBKEY_SIZE {
